@@ -16,7 +16,7 @@ constexpr int MAXBODY = 16; // pooled definition bodies per method slot
 constexpr int MAXVP = 16;   // harness-held virtual_ptr slots per policy
 constexpr int MAXREC = 512; // records per plan
 constexpr int MAXBASES = 48;
-constexpr int NSLOTS = 20;  // method pool size
+constexpr int NSLOTS = 22;  // method pool size
 
 using tid = std::uint64_t;
 
